@@ -62,6 +62,9 @@ def model_request(ps, pd, sa, da, shift, weak, init, cache, dst_any=False):
             + ' '.join('1' if x else '0' for x in f) + f" {shift} {int(weak)} {int(init)} {int(cache)}")
 
 
+REASONS = []       # the objections named by the last rejected connect() call (filled by one_case)
+
+
 def canon(effects):
     """the final tables cannot show a setdefault(None) that the initial data then overwrote"""
     es = effects.split(';')
@@ -139,6 +142,8 @@ def run(out, info, tier, seed):
             m_kind = m_res.split(' ')[0]
             if m_kind != res.split(':')[0]:
                 mismatches.append(dict(desc, model=m_res, impl=res))
+            elif res == 'rejected' and REASONS and (m_res.split(' ', 1) + [''])[1] != REASONS[-1]:
+                mismatches.append(dict(desc, model=m_res, impl='rejected ' + REASONS[-1], note='the objections listed in the error differ'))
             elif eff is not None and canon(m_res.split(' ', 1)[1]) != ';'.join(eff):
                 mismatches.append(dict(desc, model=m_res, impl=';'.join(eff)))
     # several attribute pairs in one connect() call
@@ -214,8 +219,14 @@ def one_case_wrapped(ps, pd, sa, da, sh, w, ini, cache, prior, child=(False, Fal
         if ini: kw['initial_data'] = {sa: 'INIT'}
         try:
             world.connect(src, dst, (sa, da), **kw); res = 'accepted'
-        except ScenarioError:
+        except ScenarioError as e:
             res = 'rejected'
+            # which objections the error lists (compared with the model's list of problems, in order)
+            msg = str(e); why = []
+            for text, name in (('the source attribute does not exist', 'src_attr'), ('the destination attribute does not exist', 'dst_attr'),
+                               ('requires initial data', 'initial_data'), ('Weak connections may only', 'weak_root')):
+                if text in msg: why.append((msg.index(text), name))
+            REASONS.append(','.join(n for _, n in sorted(why)))
         except Exception as e:
             res = 'crashed:' + type(e).__name__
         after = snapshot(world)
